@@ -671,3 +671,62 @@ func (p *Program) mutatesObject(in ssa.Instruction, x ssa.Value) bool {
 	}
 	return false
 }
+
+// ---------------------------------------------------------------------------------------------
+// Dynamic delete contexts: where the decision to delete a managed (unstructured) object is taken.
+// Normally that is the function containing the client Delete call; when the call was extracted into
+// an unexported helper that deletes its parameter, the contexts are the helper's call sites.
+
+type DeleteCtx struct {
+	Fn     *ssa.Function   // function in which the object is inspected and the delete is decided
+	Site   ssa.Instruction // the Delete call, or the call of the helper that performs it
+	Obj    ssa.Value       // the object deleted, as seen in Fn
+	Helper *ssa.Function   // non-nil when resolved through a helper
+}
+
+// ErrCall returns the call whose value is the error of the delete (nil if the helper does not
+// simply return it).
+func (d DeleteCtx) ErrCall() *ssa.Call {
+	call, _ := d.Site.(*ssa.Call)
+	return call
+}
+
+func (p *Program) dynDeleteContexts() []DeleteCtx {
+	var out []DeleteCtx
+	for _, ws := range allWriterSites(p.productFuncs()) {
+		if ws.Verb != "Delete" || ws.Class == "typed" {
+			continue
+		}
+		for _, dc := range p.c05Contexts(ws.Call.Fn, ws.Call.Instr, ws.Obj, 2) {
+			d := DeleteCtx{Fn: dc.fn, Site: dc.site, Obj: dc.x}
+			if dc.fn != ws.Call.Fn {
+				d.Helper = ws.Call.Fn
+			}
+			out = append(out, d)
+		}
+	}
+	return out
+}
+
+// helperReturnsOnly: every return of fn returns (as its only / last result) the value of call.
+func (p *Program) helperReturnsOnly(fn *ssa.Function, call ssa.Instruction) bool {
+	cv, ok := call.(ssa.Value)
+	if !ok {
+		return false
+	}
+	for _, rc := range p.returnCases(fn) {
+		if fn.Recover != nil && rc.Ret.Block() == fn.Recover {
+			continue
+		}
+		if len(rc.Results) == 0 {
+			return false
+		}
+		last := rc.Results[len(rc.Results)-1]
+		for _, pv := range p.possibleValues(last) {
+			if stripConv(pv) != cv {
+				return false
+			}
+		}
+	}
+	return true
+}
